@@ -30,7 +30,7 @@ class FaultEnumScenario(WorldScenario):
         if fault_class in ("kill:K3", "reply_eof:submit", "reply_rst:submit", "reply_garbage:submit") and res.accepted:
             name, jid, deps = res.accepted[-1]
             w.k3_lost.add(name)
-            w.orphans = getattr(w, "orphans", set()) | {jid}
+            w.orphan_ids.add(jid)
             latest_before, gen_before = w.before_fault
             if name in latest_before:
                 w.latest[name] = latest_before[name]
@@ -155,6 +155,31 @@ class FaultEnumScenario(WorldScenario):
         patterns = self._patterns(w, r) if r.chance(0.3) else []
         return {"op": "gwf", "argv": ["run"] + patterns, "cwd": "root"}
 
+    def _kill_streak(self, w0, r, pre):
+        def emit(op):
+            pre.append(op)
+            self.apply(w0, op)
+
+        try:
+            nothing_to_do = not w0.m_plan([])
+        except Exception:
+            nothing_to_do = False
+        if nothing_to_do and w0.cluster is not None:
+            # everything is submitted or complete: the scheduler cancels what is in flight, so that the killed
+            # runs have something to (re-)submit
+            for j in sorted(w0.cluster.jobs.values(), key=lambda j: int(j.id)):
+                if not j.foreign and j.phase != "done" and not w0.pending_violation:
+                    emit({"op": "sched_cancel", "id": j.id})
+        for _ in range(r.pick([1, 2, 2, 3])):
+            est = self._seam_estimate(w0)
+            k = (4 + r.randrange(max(1, est - 4))) if r.chance(0.8) else 1 + r.randrange(est)
+            op = {"op": "gwf", "argv": ["run"] + (self._patterns(w0, r) if r.chance(0.3) else []), "cwd": "root",
+                  "fault": {"kill_at": [k, r.pick(["before", "before", "after"])]}}
+            pre.append(op)
+            self.apply(w0, op)
+            if w0.pending_violation:
+                break
+
     def enumerate_faults(self, seams):
         faults = []
         cmd_index = {}
@@ -201,7 +226,15 @@ class FaultEnumScenario(WorldScenario):
             for op in self._init_ops(w0, self.rng.fork("init")):
                 pre.append(op)
                 self.apply(w0, op)
-            for _ in range(self.knobs["max_ops"]):
+            # a streak of killed runs: what those accepted lives only in the journal.  At the start of the
+            # history (everything is still to be submitted) or right before the enumerated invocation, so that
+            # every interruption point of that one is tried on top of it
+            streak_at = None
+            if self.profile.get("p_kill_streak") and r.chance(self.profile["p_kill_streak"]):
+                streak_at = r.pick(["start", "end"])
+            if streak_at == "start":
+                self._kill_streak(w0, r, pre)
+            for _ in range(self.knobs["max_ops"] if not w0.pending_violation else 0):
                 op = self._propose(w0, r)
                 if op is None:
                     break
@@ -209,17 +242,8 @@ class FaultEnumScenario(WorldScenario):
                 self.apply(w0, op)
                 if w0.pending_violation:
                     break
-            # a streak of killed runs right before the enumerated one: what those accepted lives only in the
-            # journal, and every interruption point of the next run is then tried on top of it
-            if not w0.pending_violation and r.chance(self.profile.get("p_kill_streak", 0.0)):
-                for _ in range(r.pick([1, 2, 2, 3])):
-                    k = 1 + r.randrange(max(3, w0.last_run_seams + 2))
-                    op = {"op": "gwf", "argv": ["run"] + (self._patterns(w0, r) if r.chance(0.3) else []), "cwd": "root",
-                          "fault": {"kill_at": [k, r.pick(["before", "before", "after"])]}}
-                    pre.append(op)
-                    self.apply(w0, op)
-                    if w0.pending_violation:
-                        break
+            if not w0.pending_violation and streak_at == "end":
+                self._kill_streak(w0, r, pre)
             self.world = w0
             if w0.pending_violation:
                 self.ops = pre
